@@ -47,11 +47,12 @@ Definition val_step (t : gty) : option api * list conv :=
   | TPtr => (Some AULL, [CPtrToInt])
   end.
 
-(* the tree as it is: Builder.PyVal writes the widened LLVM type back into the
-   shared descriptor of the Go type (v.ll = typ on a *aType), so only the first
-   conversion of int8/16/32, uint8/16/32 in a build is extended; later ones pass
-   the narrow value as it is (upper bits unspecified); the i32 target of the
-   bool conversion is widened the same way by the first int32 *)
+(* before the fix "PyVal: do not widen the shared type descriptor": Builder.PyVal
+   wrote the widened LLVM type back into the shared descriptor of the Go type
+   (v.ll = typ on a *aType), so only the first conversion of int8/16/32,
+   uint8/16/32 in a build was extended; later ones passed the narrow value as it
+   was (upper bits unspecified); the i32 target of the bool conversion was widened
+   the same way by the first int32 *)
 Definition val_step_old (first : bool) (t : gty) : option api * list conv :=
   if first then val_step t else
   match t with
@@ -60,6 +61,11 @@ Definition val_step_old (first : bool) (t : gty) : option api * list conv :=
   | TBool => (Some ABool, [CSExt 1 64])
   | _ => val_step t
   end.
+
+(* fixed = true: the code that exists; fixed = false: the lowering before the fix
+   (first: is this the first conversion of the Go type in the build) *)
+Definition val_step_of (fixed first : bool) (t : gty) : option api * list conv :=
+  if fixed then val_step t else val_step_old first t.
 
 Definition api_eqb (a b : api) : bool :=
   match a, b with
@@ -173,6 +179,15 @@ Definition py_val_gen {obj} (A : ops obj) (v : goval obj) : obj :=
   | VC128 re im => o_complex A re im
   | VObj o => o
   | VPtr a => o_ull A a
+  end.
+
+(* meaning of the lowering selected by [val_step_of]: without the extension the
+   64-bit argument carries the narrow pattern (upper bits zero, as observed) *)
+Definition py_val_of {obj} (fixed first : bool) (A : ops obj) (v : goval obj) : obj :=
+  if fixed || first then py_val_gen A v else
+  match v with
+  | VInt w true bits => o_ll A bits
+  | _ => py_val_gen A v
   end.
 
 (* Builder.PyList / PyTuple: New(n); SetItem(i, PyVal arg_i) in argument order *)
